@@ -12,13 +12,13 @@ operand that replaces an `and`/`or` is not multi-valued (neither a call nor `...
 namespace DarkluaModel.Rules.ComputeExpression.Sound
 open DarkluaModel.Sem DarkluaModel.Rules DarkluaModel.Rules.ComputeExpression
 
-structure FoldSound (api : EvalApi) (good : Expr → Prop) : Prop where
+structure FoldSound (N : NumOps) (api : EvalApi) (good : Expr → Prop) : Prop where
   folded : ∀ (e e' : Expr), good e → api.toExpr e = some e' → api.hasSideEffects e = false → noAlloc e = true →
-    ∀ {N : NumOps} (call : CallFn N) (ρ : ExtOracle N) (k : Nat) (env : Env N) (σ σ' : State N) (vs : List (Val N)),
+    ∀ (call : CallFn N) (ρ : ExtOracle N) (k : Nat) (env : Env N) (σ σ' : State N) (vs : List (Val N)),
       evalE call ρ k env e σ = .ok vs σ' → evalE call ρ k env e' σ = .ok vs σ'
 
-theorem litApi_foldSound : FoldSound litApi notInst where
-  folded e e' _ ht _ _ N call ρ k env σ σ' vs h := by
+theorem litApi_foldSound (N : NumOps) : FoldSound N litApi notInst where
+  folded e e' _ ht _ _ call ρ k env σ σ' vs h := by
     cases e <;> simp [litApi] at ht <;> (subst ht; exact h)
 
 /-- every expression that is not a call, `...` or a type instantiation has exactly one value -/
@@ -93,8 +93,8 @@ theorem multi_false_of_processed {api : EvalApi} {x : Expr} (h : multi (processE
   | true => rw [processExpr_multi api x hm, hm] at h; exact absurd h (by simp)
 
 /-- selecting an operand of `and`/`or` whose left side is decided, pure and non-allocating -/
-theorem select_refines {api : EvalApi} {good : Expr → Prop} (hs : EvalSound api good)
-    {N : NumOps} (call : CallFn N) (ρ : ExtOracle N) (k : Nat) (env : Env N)
+theorem select_refines {N : NumOps} {api : EvalApi} {good : Expr → Prop} (hs : EvalSound N api good)
+    (call : CallFn N) (ρ : ExtOracle N) (k : Nat) (env : Env N)
     (op : BinOp) (l r : Expr) (b : Bool) (hop : op = .and ∨ op = .or)
     (hg : good l) (ht : api.isTruthy l = some b) (hse : api.hasSideEffects l = false) (hna : noAlloc l = true)
     (hil : notInst l) (hir : notInst r)
@@ -149,8 +149,8 @@ theorem select_refines {api : EvalApi} {good : Expr → Prop} (hs : EvalSound ap
              rw [notMulti_single call ρ k env r hmx hir σ1 σ2 ws hr, h.1, h.2])
 
 /-- `process_expression` refines, in every context, under `H` (`okSpine`) -/
-theorem processExpr_refines {api : EvalApi} {good : Expr → Prop} (hs : EvalSound api good) (hf : FoldSound api good)
-    {N : NumOps} (call : CallFn N) (ρ : ExtOracle N) (k : Nat) (env : Env N) :
+theorem processExpr_refines {N : NumOps} {api : EvalApi} {good : Expr → Prop} (hs : EvalSound N api good) (hf : FoldSound N api good)
+    (call : CallFn N) (ρ : ExtOracle N) (k : Nat) (env : Env N) :
     ∀ (e : Expr), okSpine api good e → ∀ (σ σ' : State N) (vs : List (Val N)),
       evalE call ρ k env e σ = .ok vs σ' → evalE call ρ k env (processExpr api e) σ = .ok vs σ'
   | .un op x, hok, σ, σ', vs, h => by
